@@ -1425,6 +1425,18 @@ where
                 }
             }
         }
+        // (1c) trim asked to enforce a bound above the supported degree (within the parameters): refused, wherever the
+        //      bound stands in the list
+        //      (Sonic only: MarlinKZG10 takes its shifted powers from the top of the parameters and does support bounds up to
+        //      max_degree for polynomials of degree ≤ supported)
+        if S::NAME == "sonic" && sizes.supported < sizes.max_degree {
+            let over = range(&mut rng, sizes.supported + 1, sizes.max_degree);
+            let small = range(&mut rng, 1, sizes.supported);
+            for list in [vec![over], vec![small, over], vec![over, small], vec![over, small, small]] {
+                let r = guarded(|| S::PC::trim(&inst.pp, sizes.supported, 1, Some(&list)));
+                refuse(ctx, &id, "trim-bound-above-supported", matches!(r, Ok(Ok(_))), format!("sizes {:?} bounds {:?}", sizes, list));
+            }
+        }
         // (2) degree bounds: not enforced by the key / below the degree / beyond supported
         if S::BOUNDS {
             let p = S::rand_poly(&mut rng, &sizes, sizes.supported);
@@ -1514,6 +1526,18 @@ where
             // uses a variable the key does not have (otherwise it *is* a polynomial of the key's ring)
             if (S::NAME == "pst13" && S::uses_var_at_least(lp_poly_ref(&lp), nv)) || S::NAME == "hyrax" {
                 refuse(ctx, &id, "wrong-num-vars", matches!(r, Ok(Ok(_))), format!("key nv {} poly nv {}", nv, nv + 1));
+            }
+            // Hyrax: two variables MORE than the key was made for (the parity test passes; for n ≥ 8 the key-size
+            // guard, which compares n with the number of generators, passes too: only the row commitment notices)
+            if S::NAME == "hyrax" {
+                for extra in [2usize, 4] {
+                    let bigger = Sizes { num_vars: Some(nv + extra), ..sizes.clone() };
+                    if nv + extra > 10 { continue; }
+                    let p = S::rand_poly(&mut rng, &bigger, 1);
+                    let lp = LabeledPolynomial::new("nvbig".to_string(), p, None, None);
+                    let r = guarded(|| S::PC::commit(&inst.ck, [&lp], Some(&mut rng.clone())));
+                    refuse(ctx, &id, "more-variables-than-the-key", matches!(r, Ok(Ok(_))), format!("key nv {} poly nv {}", nv, nv + extra));
+                }
             }
             // point of the wrong length at open. PST13 (like ark-poly's `evaluate`) reads the first nv
             // coordinates of a longer point, which is a consistent reading, so there the point is
